@@ -308,6 +308,19 @@ func (st *story) rideAlong(trustedSigners []kref) []extra {
 		default: // validly signed by the set's own signers
 			e.signers = trustedSigners
 		}
+		if r.Chance(1, 3) && len(trustedSigners) > 0 {
+			// the same keys sign this RRset, but name another zone as signer: instead of the
+			// regular signatures (the RRset is then unsigned for all purposes) or next to them
+			for _, k := range trustedSigners {
+				e.named = append(e.named, namedSig{key: k, signer: 7 + r.Intn(3)})
+			}
+			if r.Bool() {
+				e.signers = nil
+			}
+			if r.Chance(1, 4) {
+				e.named = append(e.named, namedSig{key: trustedSigners[0], signer: 0}) // one that does count
+			}
+		}
 		out = append(out, e)
 	}
 	return out
